@@ -375,15 +375,19 @@ func graphShapes(c *engine.Ctx) {
 				}
 				return map[string]any{"edges": l, "format": string(f)}
 			}, func(t *engine.T) *engine.Violation {
-				d := sbom.NewDocument()
-				d.Metadata.Id = "urn:uuid:3e671687-395b-41f5-a30f-a58921a69b79"
-				for _, id := range ids {
-					d.NodeList.Nodes = append(d.NodeList.Nodes, &sbom.Node{Id: id, Name: "n" + id})
+				build := func() *sbom.Document {
+					d := sbom.NewDocument()
+					d.Metadata.Id = "urn:uuid:3e671687-395b-41f5-a30f-a58921a69b79"
+					for _, id := range ids {
+						d.NodeList.Nodes = append(d.NodeList.Nodes, &sbom.Node{Id: id, Name: "n" + id})
+					}
+					d.NodeList.RootElements = []string{"r"}
+					for _, i := range sel {
+						d.NodeList.Edges = append(d.NodeList.Edges, &sbom.Edge{From: objs[i].From, Type: sbom.Edge_contains, To: append([]string{}, objs[i].To...)})
+					}
+					return d
 				}
-				d.NodeList.RootElements = []string{"r"}
-				for _, i := range sel {
-					d.NodeList.Edges = append(d.NodeList.Edges, &sbom.Edge{From: objs[i].From, Type: sbom.Edge_contains, To: append([]string{}, objs[i].To...)})
-				}
+				d := build()
 				out1, err1 := rw.Write(d, f, 2)
 				t.Transitions(1)
 				if err1 == nil && len(out1) == 0 {
@@ -413,6 +417,28 @@ func graphShapes(c *engine.Ctx) {
 					t.Outcome(fam(f) + ":shape-output")
 				} else {
 					t.Outcome(fam(f) + ":shape-error")
+				}
+				if len(sel) <= 2 {
+					// the same document value written in the other format afterwards: its output is that of a freshly built
+					// document (a serializer that rearranges its input changes what the next one writes)
+					other := formats.SPDX23JSON
+					if f == formats.SPDX23JSON {
+						other = formats.CDX15JSON
+					}
+					live, errL := rw.Write(d, other, 2)
+					fresh, errF := rw.Write(build(), other, 2)
+					t.Transitions(2)
+					t.Validated(1)
+					if (errL == nil) != (errF == nil) {
+						return engine.Violate("history-dependent", fam(other), "after writing the document as %s, writing it as %s gives err=%v; a freshly built document gives err=%v", f, other, errL, errF)
+					}
+					if errL == nil {
+						nl, _ := rw.NormalizeJSON(live)
+						nf, _ := rw.NormalizeJSON(fresh)
+						if nl != nf {
+							return engine.Violate("history-dependent", fam(other), "after writing the document as %s, its %s output differs from that of a freshly built document:\nafter: %.500s\nfresh: %.500s", f, other, nl, nf)
+						}
+					}
 				}
 				t.State(fmt.Sprint("shape", sel, f))
 				return nil
